@@ -225,7 +225,8 @@ def FirstBestInLattice (L : Lat) (segs : List Seg) : Prop :=
 def checkFirstBest (L : Lat) (segs : List Seg) (ls : List Link) : Bool :=
   pathB L L.start ls L.final && instances L L.start ls == segs
 
-/-- untrusted search for the witness: depth-first over the links that match the next segment -/
+/-- search for the witness: depth-first over the links that match the next segment (sound and, with
+enough fuel, complete: `findSegPath_sound`, `findSegPath_complete`) -/
 def findSegPath (L : Lat) : Nat → Nat → List Seg → Option (List Link)
   | 0, _, _ => none
   | fuel + 1, u, segs =>
@@ -243,6 +244,9 @@ def findSegPath (L : Lat) : Nat → Nat → List Seg → Option (List Link)
     else
       (if u = L.final ∧ segs = [] then some [] else none) <|>
       (exits L u).findSome? fun l => (findSegPath L fuel l.dst segs).map (l :: ·)
+
+/-- decision of `FirstBestInLattice` on a well-formed lattice (a path has at most `nframes + 1` links) -/
+def firstBestB (L : Lat) (segs : List Seg) : Bool := (findSegPath L (L.nframes + 3) L.start segs).isSome
 
 /-! ### lattice cache (`fsg_search_lattice` l.1355-1358, 1517) -/
 
